@@ -106,33 +106,238 @@ Qed.
 
 Lemma canon_paren c : In c [c_lpar; c_rpar] -> canon O [[c]].
 Proof.
-  intro H. pose proof (paren_cls c H) as E. cbn [canon wcls]. split; [discriminate|]. split; [intros x [<-|[]]; exact E|].
+  intro H. pose proof (paren_cls c H) as E. cbn [canon wcls]. split; [discriminate|]. split; [intros x [<-|[]]; reflexivity|].
   split; [reflexivity | split; exact I].
 Qed.
 
 (* words joined by single spaces *)
+Lemma canon_words_ne : forall r w, ctext_word w -> Forall ctext_word r ->
+  canon O (w :: flat_map (fun x => [sp; x]) r) /\ wcls O (last (w :: flat_map (fun x => [sp; x]) r) []) = CText.
+Proof.
+  induction r as [|x r IH]; intros w Hw Hr.
+  - cbn [flat_map]. split; [apply canon_single_word; exact Hw | cbn [last]; apply ctext_wcls; exact Hw].
+  - inversion Hr as [|? ? Hx Hr']; subst. cbn [flat_map app]. destruct (IH x Hx Hr') as [Cx El]. split.
+    + change (w :: sp :: x :: flat_map (fun x0 => [sp; x0]) r) with ([w] ++ [sp] ++ (x :: flat_map (fun x0 => [sp; x0]) r)).
+      apply canon_app; [apply canon_single_word; exact Hw | apply canon_app; [apply canon_sp | exact Cx |] |].
+      * intros a b _ _ -> ->. cbn [last hd]. unfold compat. rewrite sp_cls. rewrite (ctext_wcls x Hx). intros [E _]. discriminate.
+      * intros a b _ _ -> ->. cbn [last hd app]. unfold compat. rewrite sp_cls, (ctext_wcls w Hw). intros [E _]. discriminate.
+    + change (last (w :: sp :: x :: flat_map (fun x0 => [sp; x0]) r) []) with (last (x :: flat_map (fun x0 => [sp; x0]) r) []). exact El.
+Qed.
+
 Lemma canon_words : forall ws, Forall ctext_word ws -> canon O (chunks_of_words ws) /\
   (ws <> [] -> wcls O (hd [] (chunks_of_words ws)) = CText /\ wcls O (last (chunks_of_words ws) []) = CText).
 Proof.
   intros ws H. destruct ws as [|w r]; [split; [exact I | intro; contradiction]|].
-  inversion H as [|? ? Hw Hr]; subst. cbn [chunks_of_words]. revert w Hw. induction Hr as [|x r Hx Hr IH]; intros w Hw.
-  - cbn [flat_map]. split; [apply canon_single_word; exact Hw|]. intros _. cbn [hd last]. split; apply ctext_wcls; exact Hw.
-  - cbn [flat_map app]. destruct (IH x Hx) as [Cx Ex]. specialize (Ex ltac:(discriminate)). cbn [hd] in Ex.
-    split.
-    + change (w :: sp :: x :: flat_map (fun x0 => [sp; x0]) r) with ([w] ++ [sp] ++ (x :: flat_map (fun x0 => [sp; x0]) r)).
-      apply canon_app; [apply canon_single_word; exact Hw | apply canon_app; [apply canon_sp | exact Cx |] |].
-      * intros a b _ _ -> ->. cbn [last hd]. unfold compat. rewrite sp_cls. rewrite (proj1 Ex). intros [E _]. discriminate.
-      * intros a b _ _ -> ->. cbn [last hd app]. unfold compat. rewrite sp_cls, (ctext_wcls w Hw). intros [E _]. discriminate.
-    + intros _. cbn [hd]. split; [apply ctext_wcls; exact Hw|].
-      destruct Ex as [_ El]. change (last (w :: sp :: x :: flat_map (fun x0 => [sp; x0]) r) []) with (last (x :: flat_map (fun x0 => [sp; x0]) r) []). exact El.
+  inversion H as [|? ? Hw Hr]; subst. cbn [chunks_of_words]. destruct (canon_words_ne r w Hw Hr) as [C L].
+  split; [exact C|]. intros _. split; [cbn [hd]; apply ctext_wcls; exact Hw | exact L].
+Qed.
+
+Lemma filter_words_tail : forall r, Forall ctext_word r -> filter (is_word_chunk O) (flat_map (fun x => [sp; x]) r) = r.
+Proof.
+  induction 1 as [|x r Hx _ IH]; [reflexivity|]. cbn [flat_map app filter]. unfold is_word_chunk at 1. rewrite sp_cls. cbn [cls_eqb negb].
+  unfold is_word_chunk at 1. rewrite (ctext_wcls x Hx). cbn [cls_eqb negb]. f_equal. exact IH.
 Qed.
 
 Lemma filter_words_chunks : forall ws, Forall ctext_word ws -> filter (is_word_chunk O) (chunks_of_words ws) = ws.
 Proof.
   intros ws H. destruct ws as [|w r]; [reflexivity|]. inversion H as [|? ? Hw Hr]; subst. cbn [chunks_of_words filter].
-  unfold is_word_chunk at 1. rewrite (ctext_wcls w Hw). cbn [cls_eqb negb]. f_equal.
-  induction Hr as [|x r Hx _ IH]; [reflexivity|]. cbn [flat_map app filter]. unfold is_word_chunk at 1. rewrite sp_cls. cbn [cls_eqb negb].
-  unfold is_word_chunk at 1. rewrite (ctext_wcls x Hx). cbn [cls_eqb negb]. f_equal. exact IH.
+  unfold is_word_chunk at 1. rewrite (ctext_wcls w Hw). cbn [cls_eqb negb]. f_equal. apply filter_words_tail; exact Hr.
+Qed.
+
+
+(* one item *)
+Definition fcls (t : rtok) : cls :=
+  match t with RSym _ => CText | RAnd | ROr => CSpace | RLp | RRp => CParen end.
+
+Lemma op_chunks_canon w : In w [S_AND; S_OR; S_WITH] -> canon O [sp; w; sp].
+Proof.
+  intro H. pose proof (kw_word_ctext w H) as Hw.
+  change [sp; w; sp] with ([sp] ++ [w] ++ [sp]). apply canon_app; [apply canon_sp | apply canon_app; [apply canon_single_word; exact Hw | apply canon_sp |] |].
+  - intros a b _ _ -> ->. cbn [last hd]. unfold compat. rewrite sp_cls, (ctext_wcls w Hw). intros [E _]. discriminate.
+  - intros a b _ _ -> ->. cbn [last hd app]. unfold compat. rewrite sp_cls, (ctext_wcls w Hw). intros [E _]. discriminate.
+Qed.
+
+Lemma last_app_ne {A} (l1 l2 : list A) d : l2 <> [] -> last (l1 ++ l2) d = last l2 d.
+Proof.
+  intro H. induction l1 as [|a l1 IH]; [reflexivity|]. cbn [app]. destruct (l1 ++ l2) as [|a0 l] eqn:E; [apply app_eq_nil in E as [_ E]; contradiction|].
+  cbn [last] in *. exact IH.
+Qed.
+
+Lemma hd_app_ne' {A} (l1 l2 : list A) d : l1 <> [] -> hd d (l1 ++ l2) = hd d l1.
+Proof. destruct l1; [contradiction | reflexivity]. Qed.
+
+Lemma chunks_nonempty ws : ws <> [] -> chunks_of_words ws <> [].
+Proof. destruct ws; [contradiction | discriminate]. Qed.
+
+Lemma rchunks_canon t : sym_keys_ok t ->
+  canon O (rchunks t) /\ rchunks t <> [] /\ wcls O (hd [] (rchunks t)) = fcls t /\ wcls O (last (rchunks t) []) = fcls t.
+Proof.
+  destruct t as [[s|l r]| | | |]; cbn [rchunks sym_keys_ok fcls].
+  - intros [_ [Hne Hw]]. destruct (canon_words _ Hw) as [C E]. destruct (E Hne) as [E1 E2].
+    split; [exact C|]. split; [apply chunks_nonempty; exact Hne|]. split; assumption.
+  - intros [[_ [Hnl Hwl]] [_ [Hnr Hwr]]].
+    destruct (canon_words _ Hwl) as [Cl El]. destruct (El Hnl) as [El1 El2].
+    destruct (canon_words _ Hwr) as [Cr Er]. destruct (Er Hnr) as [Er1 Er2].
+    pose proof (chunks_nonempty _ Hnl) as Nl. pose proof (chunks_nonempty _ Hnr) as Nr.
+    split; [|split; [|split]].
+    + apply canon_app; [exact Cl | apply canon_app; [apply op_chunks_canon; right; right; left; reflexivity | exact Cr |] |].
+      * intros a b _ _ -> ->. cbn [last]. unfold compat. rewrite sp_cls, Er1. intros [E _]. discriminate.
+      * intros a b _ _ -> ->. cbn [hd app]. unfold compat. rewrite sp_cls, El2. intros [E _]. discriminate.
+    + intro E. apply app_eq_nil in E as [E _]. contradiction.
+    + rewrite hd_app_ne' by exact Nl. exact El1.
+    + rewrite last_app_ne by (intro E; apply app_eq_nil in E as [E _]; discriminate). rewrite last_app_ne by exact Nr. exact Er2.
+  - intros _. split; [apply op_chunks_canon; left; reflexivity|]. split; [discriminate|]. cbn [hd last]. split; apply sp_cls.
+  - intros _. split; [apply op_chunks_canon; right; left; reflexivity|]. split; [discriminate|]. cbn [hd last]. split; apply sp_cls.
+  - intros _. split; [apply canon_paren; left; reflexivity|]. split; [discriminate|]. cbn [hd last wcls]. split; apply paren_cls; left; reflexivity.
+  - intros _. split; [apply canon_paren; right; left; reflexivity|]. split; [discriminate|]. cbn [hd last wcls]. split; apply paren_cls; right; left; reflexivity.
+Qed.
+
+Lemma rchunks_words t : sym_keys_ok t -> filter (is_word_chunk O) (rchunks t) = rwords t.
+Proof.
+  assert (Hsp : is_word_chunk O sp = false) by (unfold is_word_chunk; rewrite sp_cls; reflexivity).
+  assert (Hkw : forall w, In w [S_AND; S_OR; S_WITH] -> is_word_chunk O w = true).
+  { intros w H. unfold is_word_chunk. rewrite (ctext_wcls w (kw_word_ctext w H)). reflexivity. }
+  assert (Hp : forall c, In c [c_lpar; c_rpar] -> is_word_chunk O [c] = true).
+  { intros c H. unfold is_word_chunk. cbn [wcls]. rewrite (paren_cls c H). reflexivity. }
+  destruct t as [[s|l r]| | | |]; cbn [rchunks sym_keys_ok rwords].
+  - intros [_ [_ Hw]]. apply filter_words_chunks; exact Hw.
+  - intros [[_ [_ Hwl]] [_ [_ Hwr]]]. rewrite !filter_app. rewrite (filter_words_chunks _ Hwl), (filter_words_chunks _ Hwr).
+    cbn [filter]. rewrite Hsp, (Hkw S_WITH) by (right; right; left; reflexivity). reflexivity.
+  - intros _. cbn [filter]. rewrite Hsp, (Hkw S_AND) by (left; reflexivity). reflexivity.
+  - intros _. cbn [filter]. rewrite Hsp, (Hkw S_OR) by (right; left; reflexivity). reflexivity.
+  - intros _. cbn [filter]. rewrite (Hp c_lpar) by (left; reflexivity). reflexivity.
+  - intros _. cbn [filter]. rewrite (Hp c_rpar) by (right; left; reflexivity). reflexivity.
+Qed.
+
+(* a list of items: no two licenses and no two operators next to each other *)
+Definition okpair (a b : rtok) : Prop := ~ (fcls a = fcls b /\ fcls a <> CParen).
+Fixpoint adjok (l : list rtok) : Prop :=
+  match l with a :: ((b :: _) as r) => okpair a b /\ adjok r | _ => True end.
+
+Lemma canon_items : forall items, Forall sym_keys_ok items -> adjok items -> canon O (flat_map rchunks items).
+Proof.
+  induction items as [|t items IH]; intros Hk Ha; [exact I|]. inversion Hk as [|? ? Ht Hks]; subst. cbn [flat_map].
+  destruct (rchunks_canon t Ht) as [Ct [Nt [_ Lt]]].
+  assert (Ha' : adjok items) by (destruct items; [exact I | destruct Ha as [_ H]; exact H]).
+  apply canon_app; [exact Ct | apply IH; assumption|].
+  intros a b _ Hne -> ->. destruct items as [|t2 items2]; [contradiction|]. inversion Hks as [|? ? Ht2 _]; subst.
+  destruct (rchunks_canon t2 Ht2) as [_ [Nt2 [Ft2 _]]]. cbn [flat_map]. rewrite hd_app_ne' by exact Nt2.
+  destruct Ha as [Hp _]. unfold compat. rewrite Lt, Ft2. intros [E1 E2]. apply Hp. split; [symmetry; exact E1 | exact E2].
+Qed.
+
+Lemma concat_items : forall items, Forall sym_keys_ok items -> concat (flat_map rchunks items) = flat_map (item_str key) items.
+Proof.
+  induction items as [|t items IH]; intro H; [reflexivity|]. inversion H as [|? ? Ht Hs]; subst. cbn [flat_map].
+  rewrite concat_app, (concat_rchunks t Ht), (IH Hs). reflexivity.
+Qed.
+
+Lemma words_items : forall items, Forall sym_keys_ok items -> filter (is_word_chunk O) (flat_map rchunks items) = flat_map rwords items.
+Proof.
+  induction items as [|t items IH]; intro H; [reflexivity|]. inversion H as [|? ? Ht Hs]; subst. cbn [flat_map].
+  rewrite filter_app, (rchunks_words t Ht), (IH Hs). reflexivity.
+Qed.
+
+(* the words of a text made of items *)
+Theorem items_words items : Forall sym_keys_ok items -> adjok items ->
+  words O (flat_map (item_str key) items) = flat_map rwords items.
+Proof.
+  intros Hk Ha. rewrite <- (concat_items items Hk). rewrite (words_chunks O _ (canon_items items Hk Ha)). apply words_items; exact Hk.
+Qed.
+
+
+(* ---- the items of a rendered expression ---- *)
+Lemma adjok_app : forall l1 l2, adjok l1 -> adjok l2 -> (l1 <> [] -> l2 <> [] -> okpair (last l1 RLp) (hd RLp l2)) -> adjok (l1 ++ l2).
+Proof.
+  induction l1 as [|a l1 IH]; intros l2 A1 A2 H; [exact A2|]. cbn [app].
+  destruct l1 as [|b l1].
+  - cbn [app]. destruct l2 as [|c l2]; [exact I|]. split; [apply (H ltac:(discriminate) ltac:(discriminate)) | exact A2].
+  - destruct A1 as [P A1]. cbn [app]. split; [exact P|]. apply (IH l2 A1 A2). intros _ Hn. apply H; [discriminate | exact Hn].
+Qed.
+
+Definition nonspace_ends (l : list rtok) : Prop := l <> [] /\ fcls (hd RLp l) <> CSpace /\ fcls (last l RLp) <> CSpace.
+
+Lemma okpair_par_l b : okpair RLp b. Proof. unfold okpair. cbn. intros [_ H]. apply H. reflexivity. Qed.
+Lemma okpair_par_r a : okpair a RRp. Proof. unfold okpair. cbn. intros [E H]. apply H. exact E. Qed.
+
+Lemma wrap_shape l : nonspace_ends l -> adjok l -> nonspace_ends (RLp :: l ++ [RRp]) /\ adjok (RLp :: l ++ [RRp]).
+Proof.
+  intros [Hne _] Ha. split.
+  - split; [discriminate|]. split; [cbn; discriminate|]. change (RLp :: l ++ [RRp]) with ((RLp :: l) ++ [RRp]).
+    rewrite last_app_ne by discriminate. cbn. discriminate.
+  - change (RLp :: l ++ [RRp]) with ([RLp] ++ (l ++ [RRp])). apply adjok_app; [exact I | apply adjok_app; [exact Ha | exact I | intros _ _; apply okpair_par_r] |].
+    intros _ _. apply okpair_par_l.
+Qed.
+
+Lemma intersperse_shape sep parts : fcls sep = CSpace -> parts <> [] ->
+  Forall (fun p => nonspace_ends p /\ adjok p) parts ->
+  nonspace_ends (intersperse sep parts) /\ adjok (intersperse sep parts).
+Proof.
+  intros Hs Hne H. induction H as [|p parts [Np Ap] Hr IH]; [contradiction|]. destruct parts as [|q parts].
+  - cbn [intersperse]. split; assumption.
+  - specialize (IH ltac:(discriminate)). destruct IH as [[Nq [Fq Lq]] Aq]. destruct Np as [Npne [Fp Lp]].
+    change (intersperse sep (p :: q :: parts)) with (p ++ sep :: intersperse sep (q :: parts)). split.
+    + split; [intro E; apply app_eq_nil in E as [E _]; contradiction|]. split.
+      * rewrite hd_app_ne' by exact Npne. exact Fp.
+      * rewrite last_app_ne by discriminate.
+        change (last (sep :: intersperse sep (q :: parts)) RLp) with (last (intersperse sep (q :: parts)) RLp) || idtac.
+        destruct (intersperse sep (q :: parts)) as [|x l] eqn:E; [contradiction|]. exact Lq.
+    + apply adjok_app; [exact Ap | |].
+      * destruct (intersperse sep (q :: parts)) as [|x l] eqn:E; [contradiction|]. split; [|exact Aq].
+        unfold okpair. rewrite Hs. intros [E1 _]. cbn [hd] in Fq. apply Fq. symmetry. exact E1.
+      * intros _ _. cbn [hd]. unfold okpair. rewrite Hs. intros [E1 _]. apply Lp. exact E1.
+Qed.
+
+Lemma render_items_shape wrap : forall e, wf e = true -> nonspace_ends (render_items wrap e) /\ adjok (render_items wrap e).
+Proof.
+  assert (Part : forall x, (wf x = true -> nonspace_ends (render_items wrap x) /\ adjok (render_items wrap x)) -> wf x = true ->
+            nonspace_ends (if is_lit x then render_items wrap x else RLp :: render_items wrap x ++ [RRp]) /\
+            adjok (if is_lit x then render_items wrap x else RLp :: render_items wrap x ++ [RRp])).
+  { intros x IH W. destruct (IH W) as [N A]. destruct (is_lit x); [split; assumption | apply wrap_shape; assumption]. }
+  induction e as [a|xs IH|xs IH] using expr_ind'; intro W.
+  - cbn [render_items]. destruct a as [s|l r]; cbn [atom_items].
+    + split; [split; [discriminate | split; cbn; discriminate] | exact I].
+    + destruct wrap.
+      * split; [split; [discriminate | split; cbn; discriminate]|]. cbn [adjok]. split; [apply okpair_par_l | split; [apply okpair_par_r | exact I]].
+      * split; [split; [discriminate | split; cbn; discriminate] | exact I].
+  - cbn [render_items]. cbn [wf] in W. apply andb_true_iff in W as [Wl Wx]. apply Nat.leb_le in Wl. rewrite forallb_forall in Wx.
+    apply intersperse_shape; [reflexivity | destruct xs; [cbn in Wl; lia | discriminate]|].
+    apply Forall_forall. intros p Hp. apply in_map_iff in Hp as [x [<- Hx]]. rewrite Forall_forall in IH. apply Part; [apply IH; exact Hx | apply Wx; exact Hx].
+  - cbn [render_items]. cbn [wf] in W. apply andb_true_iff in W as [Wl Wx]. apply Nat.leb_le in Wl. rewrite forallb_forall in Wx.
+    apply intersperse_shape; [reflexivity | destruct xs; [cbn in Wl; lia | discriminate]|].
+    apply Forall_forall. intros p Hp. apply in_map_iff in Hp as [x [<- Hx]]. rewrite Forall_forall in IH. apply Part; [apply IH; exact Hx | apply Wx; exact Hx].
+Qed.
+
+(* the license items of a rendering are the literals of the expression *)
+Lemma render_items_syms wrap : forall e a, In (RSym a) (render_items wrap e) -> In a (literals e).
+Proof.
+  assert (Inter : forall sep parts t, In t (intersperse sep parts) -> t = sep \/ exists p, In p parts /\ In t p).
+  { intros sep. induction parts as [|p parts IHp]; intros t Ht; [destruct Ht|]. destruct parts as [|q parts].
+    - right. exists p. split; [left; reflexivity | exact Ht].
+    - change (intersperse sep (p :: q :: parts)) with (p ++ sep :: intersperse sep (q :: parts)) in Ht.
+      apply in_app_or in Ht as [Ht|[Ht|Ht]]; [right; exists p; split; [left; reflexivity | exact Ht] | left; symmetry; exact Ht|].
+      destruct (IHp t Ht) as [E|[p' [Hp' Ht']]]; [left; exact E | right; exists p'; split; [right; exact Hp' | exact Ht']]. }
+  induction e as [a0|xs IH|xs IH] using expr_ind'; intros a Ha.
+  - cbn [render_items literals] in *. destruct a0 as [s|l r]; cbn [atom_items] in Ha.
+    + destruct Ha as [E|[]]. inversion E. left; reflexivity.
+    + destruct wrap; cbn in Ha; [destruct Ha as [E|[E|[E|[]]]] | destruct Ha as [E|[]]]; try discriminate; inversion E; left; reflexivity.
+  - cbn [render_items literals] in *. destruct (Inter _ _ _ Ha) as [E|[p [Hp Ht]]]; [discriminate|].
+    apply in_map_iff in Hp as [x [<- Hx]]. apply in_flat_map. exists x. split; [exact Hx|]. rewrite Forall_forall in IH. apply (IH x Hx).
+    destruct (is_lit x); [exact Ht|]. destruct Ht as [E|Ht]; [discriminate|]. apply in_app_or in Ht as [Ht|[E|[]]]; [exact Ht | discriminate].
+  - cbn [render_items literals] in *. destruct (Inter _ _ _ Ha) as [E|[p [Hp Ht]]]; [discriminate|].
+    apply in_map_iff in Hp as [x [<- Hx]]. apply in_flat_map. exists x. split; [exact Hx|]. rewrite Forall_forall in IH. apply (IH x Hx).
+    destruct (is_lit x); [exact Ht|]. destruct Ht as [E|Ht]; [discriminate|]. apply in_app_or in Ht as [Ht|[E|[]]]; [exact Ht | discriminate].
+Qed.
+
+Definition expr_keys_ok (e : expr) : Prop := forall a, In a (literals e) -> forall s, In s (decompose a) -> key_ok s.
+
+(* C05: the words of the rendering are the words of its items *)
+Theorem render_words wrap e : wf e = true -> expr_keys_ok e ->
+  words O (render_with key wrap e) = flat_map rwords (render_items wrap e).
+Proof.
+  intros W K. rewrite render_is_items. destruct (render_items_shape wrap e W) as [_ A]. apply items_words; [|exact A].
+  apply Forall_forall. intros t Ht. destruct t as [[s|l r]| | | |]; cbn [sym_keys_ok]; try exact I.
+  - apply (K (Plain s) (render_items_syms wrap e _ Ht)). left; reflexivity.
+  - pose proof (render_items_syms wrap e _ Ht) as Hl. split; apply (K (With l r) Hl); [left; reflexivity | right; left; reflexivity].
 Qed.
 
 End RenderWords.
